@@ -34,14 +34,17 @@ def _unit(i):
         seen_sym[key] = [ndev, choices, v, (seen_sym[key][3] + 1) if key in seen_sym else 1]
     for key, (ndev, choices, v, count) in seen_sym.items():
         ok = True
+        kinds = []
         for _ in range(2):
             w = netmc.execute(scn, netmc.strip(choices))
+            kinds = sorted(set(k for (_i, k, _c, _m) in w.deviations()))
             again = _CHECK(w) or []
             if not any(json.dumps(common.jsonable(x.get('features', {})), sort_keys=True) == key for x in again):
                 ok = False
         if ok:
             v = dict(v)
             v['instances'] = count
+            v['_dev_kinds'] = ''.join(kinds)
             confirmed.append((netmc.strip(choices), v))
         else:
             unrepro += 1
@@ -101,13 +104,16 @@ def run(prop, tier, scenarios, check, bound, describe, cap=None, rule='', assump
     fresh_ok = fresh_bad = 0
     n_cand = len(pending)
     kept = []
+    from concurrent.futures import ThreadPoolExecutor
+    with ThreadPoolExecutor(max_workers=6) as tp:
+        verdicts = list(tp.map(lambda t: _fresh_confirm(check, tier, _SCNS[t[0]].name, t[1], t[2]), pending[:12]))
     for k, (i, choices, v) in enumerate(pending):
         if k >= 12:
             # beyond the first dozen: kept iff the fresh process confirmed at least one of the dozen
             if fresh_ok:
                 kept.append((i, choices, v))
             continue
-        if _fresh_confirm(check, tier, _SCNS[i].name, choices, v):
+        if verdicts[k]:
             fresh_ok += 1
             kept.append((i, choices, v))
         else:
@@ -124,7 +130,7 @@ def run(prop, tier, scenarios, check, bound, describe, cap=None, rule='', assump
         feats = {k: x for k, x in feats.items() if not k.startswith('_')}
         feats.update(v.get('features', {}))
         feats['symptom'] = v['symptom']
-        feats['deviation_kinds'] = ''.join(sorted(set(
+        feats['deviation_kinds'] = v['_dev_kinds'] if '_dev_kinds' in v else ''.join(sorted(set(
             k for k in _dev_kinds(scn, choices))))
         rep.violation(feats, {'scenario': scn.name, 'choices': list(choices), 'detail': v.get('detail'),
                               'instances': v.get('instances')})
@@ -158,6 +164,9 @@ def _fresh_confirm(check, tier, name, choices, v):
     env['VERIF_CONFIRM'] = json.dumps({'module': check.__module__, 'check': check.__name__, 'tier': tier, 'name': name,
                                        'choices': list(choices), 'symptom': v['symptom']})
     env['PYTHONHASHSEED'] = '0'
+    # one execution, alone in its process: 30 s of real time is ample (normally ~2 ms), and a candidate that
+    # hangs or spins must not take minutes to say so again
+    env['VERIF_WATCHDOG_S'] = '30'
     code = 'import sys; sys.path.insert(0, %r); from mc import netcheck; sys.exit(netcheck.confirm_entry())' % common.VERIF
     try:
         p = subprocess.run([sys.executable, '-c', code], env=env, cwd=common.VERIF, capture_output=True, timeout=900)
